@@ -19,8 +19,9 @@ import (
 )
 
 type loopSig struct {
-	atoms map[string]int  // multiset: "R:<rule>" call, "T:<rule>" token added, "." matchDot, "L" nested loop
-	chars map[string]bool // character literals tested (tie-break only: -switch drops and adds tests)
+	atoms  map[string]int  // multiset: "R:<rule>" call, "T:<rule>" token added, "." matchDot, "L" nested loop
+	chars  map[string]bool // character literals tested (tie-break only: -switch drops and adds tests)
+	owners []string        // inlined rules / captures whose extent contains the loop, innermost first (AST parsers only)
 }
 
 func newLoopSig() *loopSig { return &loopSig{atoms: map[string]int{}, chars: map[string]bool{}} }
@@ -31,17 +32,26 @@ func (s *loopSig) key() string {
 		ks = append(ks, k+"*"+strings.Repeat("i", n))
 	}
 	sort.Strings(ks)
-	return strings.Join(ks, " ")
+	return strings.Join(ks, " ") + " | " + strings.Join(s.owners, ">")
 }
 
 // astLoops: the labelled statements of a closure body that are the target of a goto from inside themselves
-// (the emitter's repetition loops), in source order — the order in which ir.go numbers loops.
-func astLoops(body *ast.BlockStmt) []*ast.LabeledStmt {
+// (the emitter's repetition loops), in source order — the order in which ir.go numbers loops — and, for each, the
+// rules whose inlined extent contains it: the emitter writes an inlined rule X (and a capture) as a block that ends
+// with add(ruleX, begin), so the enclosing blocks of a loop that end in such a call name its owners.
+func astLoops(body *ast.BlockStmt) ([]*ast.LabeledStmt, map[*ast.LabeledStmt][]string) {
 	var loops []*ast.LabeledStmt
+	owners := map[*ast.LabeledStmt][]string{}
+	var stack []ast.Node
 	ast.Inspect(body, func(n ast.Node) bool {
-		if _, ok := n.(*ast.FuncLit); ok {
-			return false
+		if n == nil {
+			stack = stack[:len(stack)-1]
+			return true
 		}
+		if _, ok := n.(*ast.FuncLit); ok {
+			return false // no push: Inspect does not call f(nil) for a node whose children are skipped
+		}
+		stack = append(stack, n)
 		ls, ok := n.(*ast.LabeledStmt)
 		if !ok {
 			return true
@@ -55,11 +65,28 @@ func astLoops(body *ast.BlockStmt) []*ast.LabeledStmt {
 		})
 		if back {
 			loops = append(loops, ls)
+			var chain []string
+			for i := len(stack) - 1; i >= 0; i-- {
+				b, ok := stack[i].(*ast.BlockStmt)
+				if !ok || len(b.List) == 0 {
+					continue
+				}
+				if es, ok := b.List[len(b.List)-1].(*ast.ExprStmt); ok {
+					if call, ok := es.X.(*ast.CallExpr); ok {
+						if id, ok := call.Fun.(*ast.Ident); ok && id.Name == "add" && len(call.Args) > 0 {
+							if nm := ruleIdentName(call.Args[0]); nm != "" && b.End() > ls.End() {
+								chain = append(chain, nm)
+							}
+						}
+					}
+				}
+			}
+			owners[ls] = chain
 		}
 		return true
 	})
 	sort.Slice(loops, func(i, j int) bool { return loops[i].Pos() < loops[j].Pos() })
-	return loops
+	return loops, owners
 }
 
 func ruleIdentName(e ast.Expr) string {
@@ -166,15 +193,56 @@ func quoteRune(c rune) string { return strconv.QuoteRune(c) }
 // matchLoops returns, for every loop of the closure in source order, the index into occ of the repetition
 // occurrence whose invariant it gets; nil when the counts differ or no assignment with equal signatures exists (the
 // caller then keeps the order of the rule tree).
-func (gp *GenProgram) matchLoops(body *ast.BlockStmt, occ []*PNode, inlined func(string) *PRule) []int {
-	loops := astLoops(body)
+func (gp *GenProgram) matchLoops(body *ast.BlockStmt, self string, occ []*PNode, inlined func(string) *PRule, root *PNode) []int {
+	loops, owners := astLoops(body)
 	if len(loops) != len(occ) || len(occ) == 0 {
 		return nil
+	}
+	// the owner chains of the repetition occurrences, in the same order as occ (starsInEmissionOrder)
+	var chains [][]string
+	var walk func(n *PNode, chain []string)
+	walk = func(n *PNode, chain []string) {
+		switch n.TypeName {
+		case "Star":
+			chains = append(chains, chain)
+			walk(n.Kids[0], chain)
+		case "Plus":
+			walk(n.Kids[0], chain)
+			chains = append(chains, chain)
+			walk(n.Kids[0], chain)
+		case "Name":
+			if r := inlined(n.Str); r != nil {
+				walk(r.Body, append([]string{n.Str}, chain...))
+			}
+		case "Push":
+			c := chain
+			if gp.Ast {
+				c = append([]string{"PegText"}, chain...)
+			}
+			for _, k := range n.Kids {
+				walk(k, c)
+			}
+		default:
+			for _, k := range n.Kids {
+				walk(k, chain)
+			}
+		}
+	}
+	var top []string
+	if gp.Ast {
+		top = []string{self}
+	}
+	walk(root, top)
+	if len(chains) != len(occ) {
+		chains = nil
 	}
 	// actions differ between the two sides (call vs add): leave them out of the code signature as well
 	cs := make([]*loopSig, len(loops))
 	for i, l := range loops {
 		cs[i] = codeSig(l)
+		if chains != nil {
+			cs[i].owners = owners[l]
+		}
 		for k := range cs[i].atoms {
 			if strings.HasPrefix(k, "R:Action") || strings.HasPrefix(k, "T:Action") {
 				delete(cs[i].atoms, k)
@@ -184,6 +252,9 @@ func (gp *GenProgram) matchLoops(body *ast.BlockStmt, occ []*PNode, inlined func
 	ss := make([]*loopSig, len(occ))
 	for j, o := range occ {
 		ss[j] = gp.specSig(o, inlined)
+		if chains != nil {
+			ss[j].owners = chains[j]
+		}
 	}
 	identity := true
 	for i := range loops {
